@@ -262,8 +262,28 @@ func init() {
 			}
 			fns := p.FuncsInPkg("pkg/api/client")
 			r.Analysed = len(fns)
+			// functions that take objects off the sender's queue, directly or through a
+			// helper of the package
+			takes := map[*ssa.Function]bool{}
 			for _, fn := range fns {
-				if len(callsTo(fn, wo)) == 0 {
+				if len(callsTo(fn, wo)) > 0 {
+					takes[fn] = true
+				}
+			}
+			for round := 0; round < 2; round++ {
+				for _, fn := range fns {
+					if takes[fn] {
+						continue
+					}
+					eachCall(fn, func(c ssa.CallInstruction) {
+						if sc := c.Common().StaticCallee(); sc != nil && takes[sc] {
+							takes[fn] = true
+						}
+					})
+				}
+			}
+			for _, fn := range fns {
+				if !takes[fn] {
 					continue
 				}
 				for _, ci := range callsTo(fn, req) {
@@ -448,7 +468,7 @@ func stdMethods(p *Program, pkgPath string, want map[string][]string) (map[*type
 func init() {
 	inst := abortInstance{
 		id: "C17-j", min: 1, anchor: "pkg/api/utils.(*ObjectReceiver).Receive",
-		doc: "A transfer that failed is over: in pkg/api/client a failure of (*ObjectReceiver).Receive (a packfile cut short, an invalid object) ends the session state with an error on every path — it is never answered by asking again from inside the failure path. A remote that keeps sending a packfile cut inside an object would otherwise be re-requested without bound (recursion, response bodies never closed).",
+		doc:   "A transfer that failed is over: in pkg/api/client a failure of (*ObjectReceiver).Receive (a packfile cut short, an invalid object) ends the session state with an error on every path — it is never answered by asking again from inside the failure path. A remote that keeps sending a packfile cut inside an object would otherwise be re-requested without bound (recursion, response bodies never closed).",
 		scope: func(p *Program) []*ssa.Function { return p.FuncsInPkg("pkg/api/client") },
 		callees: func(p *Program) (map[*types.Func]bool, error) {
 			return p.MustFuncs("pkg/api/utils.(*ObjectReceiver).Receive")
